@@ -16,8 +16,8 @@ Open Scope N_scope.
    and records whose header does not decode.  (Regression corpus on the real code: 2c, 300000, 00, 2f0001 ...;
    before 5a7ed2c all but the length errors ended the handshake / surfaced in Read.) *)
 Theorem C08_undecodable_dropped :
-  forall (W : nat) (full : bool) (s : rstate) (d : dgram),
-    undecodable d -> recv_dgram W full s d = (s, []).
+  forall (W : nat) (full est : bool) (s : rstate) (d : dgram),
+    undecodable d -> recv_dgram W full est s d = (s, []).
 Proof. exact undecodable_dropped. Qed.
 Print Assumptions C08_undecodable_dropped.
 
@@ -66,6 +66,49 @@ Theorem C08_recv_fb_is_recv :
   forall (W : nat) (lease : bool) (s : rstate) (w : wire), recv_fb W lease false s w = recv W lease s w.
 Proof. exact recv_fb_open. Qed.
 Print Assumptions C08_recv_fb_is_recv.
+
+(* ---- unprotected non-fatal alerts (conn.go classifyReadLoopError) ---- *)
+
+(* WHILE THE HANDSHAKE IS RUNNING a warning alert that anybody can send (epoch 0, level warning, description
+   other than close_notify) is inert: no error surfaces (nothing is put into the capacity-1 channel nobody
+   reads yet), no alert, nothing closed, nothing delivered; epoch, keys, queue untouched.  The harness replays
+   15fefd0000<seq>0002015a once, twice and three times at every handshake step: the handshake must complete and
+   the first Read must return the peer's payload *)
+Theorem C08_warning_alert_inert_before_establishment :
+  forall (W : nat) (lease full : bool) (s : rstate) (w : wire) (level desc : N),
+    w_epoch w = 0 -> w_clear w = CAlert level desc -> is_warning (CAlert level desc) = true ->
+    let r := recv_conn W lease full false s w in
+    (snd r = [] \/ snd r = [OMark 0 (w_seq w)]) /\
+    r_epoch (fst r) = r_epoch s /\ r_init (fst r) = r_init s /\ r_queue (fst r) = r_queue s /\
+    r_closed (fst r) = r_closed s /\ r_cid (fst r) = r_cid s.
+Proof. exact warning_alert_inert_before_establishment. Qed.
+Print Assumptions C08_warning_alert_inert_before_establishment.
+
+(* once established it is, as coded, handed to Read as an error and the connection continues (exception X1b) *)
+Theorem C08_warning_alert_after_establishment :
+  forall (W : nat) (lease : bool) (s : rstate) (w : wire) (level desc : N),
+    r_closed s = false -> w_epoch w = 0 -> w_clear w = CAlert level desc -> is_warning (CAlert level desc) = true ->
+    check maxseq48 (get_win W 0 (r_wins s)) (w_seq w) = true ->
+    snd (recv_conn W lease false true s w) = [OMark 0 (w_seq w); OErr] /\
+    r_closed (fst (recv_conn W lease false true s w)) = false.
+Proof. exact warning_alert_after_establishment. Qed.
+Print Assumptions C08_warning_alert_after_establishment.
+
+(* STILL OPEN, as coded: while a dual-stack endpoint is still negotiating the version the same warning alert
+   ends the handshake.  Witness replayed by the harness: 15fefd0000<seq>0002016e to a dual-stack client
+   before the server's first answer is delivered *)
+Theorem C08_warning_alert_negotiating_refuted :
+  forall (W : nat) (lease : bool) (s : rstate) (w : wire) (level desc : N),
+    r_closed s = false -> w_epoch w = 0 -> w_clear w = CAlert level desc -> is_warning (CAlert level desc) = true ->
+    check maxseq48 (get_win W 0 (r_wins s)) (w_seq w) = true ->
+    snd (recv_conn_neg W lease false true false s w) = [OMark 0 (w_seq w); OErr].
+Proof. exact warning_alert_negotiating_refuted. Qed.
+Print Assumptions C08_warning_alert_negotiating_refuted.
+
+Theorem C08_recv_conn_is_recv :
+  forall (W : nat) (lease : bool) (s : rstate) (w : wire), recv_conn W lease false true s w = recv W lease s w.
+Proof. exact recv_conn_established. Qed.
+Print Assumptions C08_recv_conn_is_recv.
 
 (* ---- protected records that fail authentication ---- *)
 Theorem C08_forged_dropped :
